@@ -34,6 +34,10 @@ class AvroHeader:
         return f"<avro header {self.schema.get('name')!r}>"
 
 
+class AvroBadInstant:
+    """a timestamp-micros value whose instant has no datetime form (before year 1 / after year 9999 in UTC): stored fine, undecodable"""
+
+
 class AvroBlock:
     def __init__(self, records, torn_at=None):
         self.records = list(records)
@@ -123,8 +127,10 @@ class AvroWriter:
                         raise Unsupported("naive datetime handed to the Avro timestamp-micros logical type (local time dependent)")
                     try:
                         stored[f["name"]] = u.astimezone(_dtm.timezone.utc).replace(fold=0)
-                    except OverflowError as e:
-                        raise PyRaise(e)
+                    except OverflowError:
+                        # the writer stores microseconds since the epoch (plain integer arithmetic, no error); it is the READER that cannot turn an
+                        # instant outside years 1..9999 (in UTC) back into a datetime
+                        stored[f["name"]] = AvroBadInstant()
                 elif type(u).__name__ == "SymDT":
                     if u.utcoffset() != _dtm.timedelta(0):
                         raise Unsupported("symbolic non-UTC datetime handed to Avro")
@@ -133,8 +139,8 @@ class AvroWriter:
                     # a plain long given for the logical type is taken as microseconds since the epoch; readers decode it like any other value
                     try:
                         stored[f["name"]] = _dtm.datetime(1970, 1, 1, tzinfo=_dtm.timezone.utc) + _dtm.timedelta(microseconds=u)
-                    except OverflowError as e:
-                        raise PyRaise(e)
+                    except OverflowError:
+                        stored[f["name"]] = AvroBadInstant()
                 elif isinstance(u, SInt):
                     raise Unsupported("symbolic long handed to the Avro timestamp-micros logical type")
         self.buffer.append(stored)
@@ -172,7 +178,14 @@ class AvroReaderModel:
                 # the bytes of a partly encoded record shift everything behind them: the block does not decode to the records written
                 raise PyRaise(IndexError("avro block holds the bytes of a partly encoded record (undecodable)"))
             out += [dict(r) for r in b.records]
-        return iter(out)
+
+        def records():
+            for r in out:
+                if any(isinstance(v, AvroBadInstant) for v in r.values()):
+                    raise PyRaise(OverflowError("date value out of range"))
+                yield r
+
+        return records()
 
 
 class _AvroWriteNS:
@@ -512,6 +525,8 @@ def install(it):
         it_.vfs_events.append(("rename", src, dst))
 
     def m_makedirs(it_, p, *a, **k):
+        if it_.unbase(p) == "":
+            raise PyRaise(FileNotFoundError(2, "No such file or directory", ""))  # os.makedirs("")
         it_.vfs_dirs.add(it_.unbase(p))
 
     it.models[os.path.exists] = m_exists
